@@ -399,7 +399,11 @@ struct Tables {
     names: HashMap<u64, String>,
     /// handle -> actor it was given to (children to be)
     given: HashMap<String, String>,
+    /// handle name -> a builder whose terminal `.register()` (spawn + register in one call) is still to be made
+    pending_reg: HashMap<String, PendingReg>,
 }
+type RegOut = HResult<(Box<dyn AddrLike>, Option<Box<dyn AddrLike>>)>;
+type PendingReg = Box<dyn FnOnce() -> LocalBoxFuture<'static, RegOut>>;
 thread_local! { static TAB: RefCell<Tables> = RefCell::new(Tables::default()); }
 
 /// A handle taken out of the table for the duration of an operation; put back when the operation ends - also when
@@ -654,6 +658,33 @@ fn spawn_actor_k<const K: usize>(c: &str, o: &Op) -> Res {
                 }
             }
             _ => {}
+        }
+        if o.entry == "builder_register" {
+            // the builder's terminal `register()`: the spawn happens inside that call, when the scenario's next
+            // operation (`register` on this handle) runs - nothing can be scheduled in between
+            macro_rules! defer {
+                ($b:expr) => {{
+                    let b = $b;
+                    let name = o.a.clone();
+                    let f: PendingReg = Box::new(move || {
+                        crate::actors::exec().label_next_actor(&name);
+                        Box::pin(async move {
+                            match b.register().await {
+                                Ok((me, old)) => Ok((Box::new(me) as Box<dyn AddrLike>, old.map(|x| Box::new(x) as Box<dyn AddrLike>))),
+                                Err(e) => Err(e),
+                            }
+                        })
+                    });
+                    TAB.with(|t| t.borrow_mut().pending_reg.insert(o.nh.clone(), f));
+                }};
+            }
+            match cf.strat.as_str() {
+                "restart" => defer!(ch),
+                "recreate" => defer!(ch.recreate_from_default()),
+                "none" => defer!(ch.non_restartable()),
+                s => panic!("harness: strategy {s}"),
+            }
+            return r("ok", o.a.clone());
         }
         macro_rules! fin {
             ($b:expr) => {
@@ -931,11 +962,22 @@ async fn run_op(c: &str, n: i64, o: &Op) -> Res {
             t => panic!("harness: service type {t}"),
         },
         "register" => {
-            let h = take_h(&o.h);
-            let a = actor_of(h.aid());
-            let x = match h {
-                Addr(x) => x.register().await,
-                _ => panic!("harness: register on wrong kind"),
+            let pending = TAB.with(|t| t.borrow_mut().pending_reg.remove(&o.h));
+            let (x, a) = if let Some(mk) = pending {
+                let x = mk().await;
+                let a = match &x {
+                    Ok((me, _)) => actor_of(me.aid()),
+                    Err(_) => "*".to_string(),
+                };
+                (x, a)
+            } else {
+                let h = take_h(&o.h);
+                let a = actor_of(h.aid());
+                let x = match h {
+                    Addr(x) => x.register().await,
+                    _ => panic!("harness: register on wrong kind"),
+                };
+                (x, a)
             };
             match x {
                 Ok((me, old)) => {
@@ -1075,7 +1117,7 @@ async fn client(name: String, prog: Vec<Op>) {
     for o in prog.iter() {
         // an operation whose handle does not exist (a failed upgrade earlier) is skipped silently
         // (so is everything on a pooled handle whose `claim` came too early: it never became this client's)
-        if o.h != "none" && (unclaimed.contains(&o.h) || !TAB.with(|t| t.borrow().handles.contains_key(&o.h))) {
+        if o.h != "none" && (unclaimed.contains(&o.h) || !TAB.with(|t| t.borrow().handles.contains_key(&o.h) || t.borrow().pending_reg.contains_key(&o.h))) {
             if o.op == "claim" {
                 unclaimed.insert(o.h.clone());
             }
